@@ -63,23 +63,21 @@ Definition env_type (E : env) (name : bytes) : option value :=
 Definition env_param (E : env) (name : bytes) : option value :=
   if e_bound E then map_get (e_params E) name else None.
 
-(** A computation that threads the call log. *)
-Definition M (A : Type) := log -> res (A * log).
-Definition mret {A} (a : A) : M A := fun lg => ROk (a, lg).
-Definition mfail {A} (e : cel_error) : M A := fun _ => RErr e.
+(** A computation that threads the call log (calls made before a failure stay logged). *)
+Definition M (A : Type) := log -> res A * log.
+Definition mret {A} (a : A) : M A := fun lg => (ROk a, lg).
+Definition mfail {A} (e : cel_error) : M A := fun lg => (RErr e, lg).
 Definition mbind {A B} (m : M A) (f : A -> M B) : M B :=
   fun lg => match m lg with
-            | ROk (a, lg') => f a lg'
-            | RErr e => RErr e
-            | RPanic => RPanic
-            | RFuel => RFuel
-            | RUnmod => RUnmod
+            | (ROk a, lg') => f a lg'
+            | (RErr e, lg') => (RErr e, lg')
+            | (RPanic, lg') => (RPanic, lg')
+            | (RFuel, lg') => (RFuel, lg')
+            | (RUnmod, lg') => (RUnmod, lg')
             end.
-Definition mlift {A} (r : res A) : M A :=
-  fun lg => match r with
-            | ROk a => ROk (a, lg) | RErr e => RErr e
-            | RPanic => RPanic | RFuel => RFuel | RUnmod => RUnmod
-            end.
+Definition mlift {A} (r : res A) : M A := fun lg => (r, lg).
+Definition mcast {A B} (r : res A) : res B :=      (* for the non-Ok outcomes *)
+  match r with ROk _ => RErr EInternal | RErr e => RErr e | RPanic => RPanic | RFuel => RFuel | RUnmod => RUnmod end.
 Notation "'do' x '<-' m ';' k" := (mbind m (fun x => k))
   (at level 200, x pattern, m at level 100, k at level 200).
 
@@ -140,7 +138,7 @@ Section Step.
 
   Definition call_func (name : bytes) (this : value) (args : list value) : M value :=
     match assoc name (e_ufuncs E) with
-    | Some u => fun lg => ROk (ufun_apply u this args, (name, this, args) :: lg)
+    | Some u => fun lg => (ROk (ufun_apply u this args), (name, this, args) :: lg)
     | None =>
       match call_default (e_now E) name this args with
       | Some r => mlift r
@@ -154,10 +152,10 @@ Section Step.
       resolution and must yield an identifier. *)
   Definition eval_ident (c : code) : M (value + bytes) :=
     fun lg => match rs empty_env c false O lg with
-              | ROk (VIdent s, lg') => ROk (inr s, lg')
-              | ROk (_, lg') => ROk (inl (VErr EMisc), lg')
-              | RErr e => ROk (inl (VErr e), lg)
-              | RPanic => RPanic | RFuel => RFuel | RUnmod => RUnmod
+              | (ROk (VIdent s), lg') => (ROk (inr s), lg')
+              | (ROk _, lg') => (ROk (inl (VErr EMisc)), lg')
+              | (RErr e, lg') => (ROk (inl (VErr e)), lg')
+              | (r, lg') => (mcast r, lg')
               end.
 
   Definition bind_param (E0 : env) (k : bytes) (v : value) : env :=
@@ -166,9 +164,9 @@ Section Step.
   (** a body evaluation; [inl] = the macro's early result (an error value) *)
   Definition run_body (E' : env) (c : code) : M (value + value) :=
     fun lg => match rs E' c true dcur lg with
-              | ROk (v, lg') => ROk (inr v, lg')
-              | RErr e => ROk (inl (VErr e), lg)
-              | RPanic => RPanic | RFuel => RFuel | RUnmod => RUnmod
+              | (ROk v, lg') => (ROk (inr v), lg')
+              | (RErr e, lg') => (ROk (inl (VErr e)), lg')
+              | (r, lg') => (mcast r, lg')
               end.
 
   Fixpoint all_loop (x : bytes) (body : code) (l : list value) : M value :=
@@ -245,11 +243,11 @@ Section Step.
     | [] => mret VNull
     | c :: r => fun lg =>
         match rs E c true dcur lg with
-        | ROk (VNull, lg') => coalesce_loop r lg'
-        | ROk (v, lg') => ROk (v, lg')
-        | RErr (EBinding _) | RErr (EAttribute _) => coalesce_loop r lg
-        | RErr e => ROk (VErr e, lg)
-        | RPanic => RPanic | RFuel => RFuel | RUnmod => RUnmod
+        | (ROk VNull, lg') => coalesce_loop r lg'
+        | (ROk v, lg') => (ROk v, lg')
+        | (RErr (EBinding _), lg') | (RErr (EAttribute _), lg') => coalesce_loop r lg'
+        | (RErr e, lg') => (ROk (VErr e), lg')
+        | (x, lg') => (mcast x, lg')
         end
     end.
 
@@ -262,10 +260,10 @@ Section Step.
     if bytes_eqb name #"has" then
       match args with
       | [c] => fun lg => match rs E c true dcur lg with
-                         | ROk (_, lg') => ROk (VBool true, lg')
-                         | RErr (EBinding _) | RErr (EAttribute _) => ROk (VBool false, lg)
-                         | RErr e => ROk (VErr e, lg)
-                         | RPanic => RPanic | RFuel => RFuel | RUnmod => RUnmod
+                         | (ROk _, lg') => (ROk (VBool true), lg')
+                         | (RErr (EBinding _), lg') | (RErr (EAttribute _), lg') => (ROk (VBool false), lg')
+                         | (RErr e, lg') => (ROk (VErr e), lg')
+                         | (x, lg') => (mcast x, lg')
                          end
       | _ => mret (VErr EArgument)
       end
@@ -468,7 +466,7 @@ Definition jump_target (pc : nat) (dist : Z) (len : nat) : option nat :=
 Fixpoint loop (rs : runner) (fuel : nat) (E : env) (dcur : nat) (c : code) (pc : nat) (st : stack)
   : M stack :=
   match fuel with
-  | O => fun _ => RFuel
+  | O => fun lg => (RFuel, lg)
   | S f =>
       match nth_error c pc with
       | None => mret st
@@ -505,7 +503,7 @@ Definition finish (rs : runner) (E : env) (dcur : nat) (resolve : bool) (st : st
     instructions executed in this activation and, through [rs], nesting. *)
 Fixpoint run (fuel : nat) (E : env) (c : code) (resolve : bool) (d : nat) : M value :=
   match fuel with
-  | O => fun _ => RFuel
+  | O => fun lg => (RFuel, lg)
   | S f =>
       if Nat.ltb 32 (S d) then mfail ERuntime
       else do st <- loop (run f) f E (S d) c O [];
@@ -513,8 +511,8 @@ Fixpoint run (fuel : nat) (E : env) (c : code) (resolve : bool) (d : nat) : M va
   end.
 
 (** [CelContext::exec]: run the named program of the context. *)
-Definition exec (fuel : nat) (E : env) (name : bytes) : res (value * log) :=
+Definition exec (fuel : nat) (E : env) (name : bytes) : res value * log :=
   match assoc name (e_progs E) with
   | Some c => run fuel E c true O []
-  | None => RErr (EBinding name)
+  | None => (RErr (EBinding name), [])
   end.
